@@ -29,6 +29,7 @@ ClausesOf(e) ==
       [] e.ev = "Compile" -> AnyCompileClauses(e)
       [] e.ev = "GenBuild" -> GenBuildClauses(e)
       [] e.ev = "Config"  -> ConfigClauses(e)
+      [] e.ev = "Derive"  -> DeriveClauses(e)
       [] OTHER -> <<Cl("T.unknown_event", TRUE, FALSE)>>
 
 (* spec -> impl: an event replayed from the calculator machine carries, in  *)
